@@ -1046,19 +1046,17 @@ static int parse_container(struct scanner_s *scanner, cif_container_tp *containe
                 goto container_end;
             case FRAME_HEAD:
                 frame = NULL;
+                result = CIF_OK;
 
-                if ((container == NULL) || (scanner->skip_depth > 0)) {
-                    result = CIF_OK;
-                } else { 
-                    UChar saved = *(token_value + token_length);
-
+                /* the frame depth rules are syntactic: they apply in syntax-only mode (container == NULL), too */
+                if (scanner->skip_depth <= 0) {
                     if (scanner->max_frame_depth == 0) {
                         /* save frames are not permitted */
                         result = scanner->error_callback(CIF_FRAME_NOT_ALLOWED, scanner->line,
                              scanner->column - TVALUE_LENGTH(scanner), TVALUE_START(scanner),
                              TVALUE_LENGTH(scanner), scanner->user_data);
                         /* recover, if so directed, by acting as if max_frame_depth were 1 */
-                        if (!is_block) {
+                        if ((result != CIF_OK) || !is_block) {
                             goto container_end;
                         }
                     } else if ((scanner->max_frame_depth == 1) && !is_block) {
@@ -1070,6 +1068,10 @@ static int parse_container(struct scanner_s *scanner, cif_container_tp *containe
                         /* do not consume the token */
                         goto container_end;
                     }
+                }
+
+                if ((container != NULL) && (scanner->skip_depth <= 0)) {
+                    UChar saved = *(token_value + token_length);
 
                     /* insert a string terminator into the input buffer, after the current token */
                     *(token_value + token_length) = 0;
